@@ -162,6 +162,43 @@ def render(env, src: str, data: dict):
         return ("exc", type(e).__name__, str(e)[:200])
 
 
+_LOOP = []
+
+
+def _loop():
+    import asyncio
+    import os
+
+    if not _LOOP or _LOOP[0][0] != os.getpid():
+        _LOOP[:] = [(os.getpid(), asyncio.new_event_loop())]
+    return _LOOP[0][1]
+
+
+def compile_src(env, src: str):
+    """-> ('code', code object, python source) | ('exc', ExceptionClassName, message).
+    The code object may be rendered under any environment with the same
+    compile-relevant configuration (see render_code)."""
+    try:
+        py = env.compile(src, raw=True)
+        return ("code", compile(py, "<template>", "exec"), py)
+    except Exception as e:  # noqa: BLE001
+        return ("exc", type(e).__name__, str(e)[:200])
+
+
+def render_code(env, compiled, data: dict):
+    if compiled[0] == "exc":
+        return compiled
+    try:
+        t = env.template_class.from_code(env, compiled[1], env.make_globals(None), None)
+        if env.is_async:
+            # Template.render would start a fresh event loop per call (asyncio.run);
+            # the public render_async on one loop per worker process is the same code path
+            return ("ok", _loop().run_until_complete(t.render_async(**data)))
+        return ("ok", t.render(**data))
+    except Exception as e:  # noqa: BLE001
+        return ("exc", type(e).__name__, str(e)[:200])
+
+
 _CONTAINERS = (list, tuple, set, frozenset, collections.deque)
 
 
